@@ -15,7 +15,7 @@ LIKE_OPS = {"str_starts_with", "str_ends_with", "str_contains"}
 def walk_pipes(pipe):
     yield pipe
     for st in pipe["steps"]:
-        if st[0] in ("join", "union"):
+        if st[0] in ("join", "union") and "steps" in st[1]:
             yield from walk_pipes(st[1])
 
 
